@@ -29,7 +29,7 @@ Do not edit tests, Cargo manifests' dependency lists, or anything outside the cr
 
 DELIVERABLES (all inside /tmp/mut-{wt}):
  - the source change left UNCOMMITTED in the worktree (so that `git diff` shows it);
- - a demonstration: a Rust integration test file in /tmp/mut-{wt}/demo/demo_{wt.lower()}.rs (create the demo directory) which, when copied into the appropriate crate's tests/ directory, FAILS on your changed code and PASSES on the unchanged code (check both: use `git stash` to compare, then `git stash pop`). It must only use public APIs of the crates (cargo features of the crate may be enabled; say which). Remove the copy from tests/ afterwards, so the worktree contains only your source change plus the demo directory.
+ - a demonstration: a Rust integration test file in /tmp/mut-{wt}/demo/demo_{wt.lower()}.rs (create the demo directory) which, when copied into the appropriate crate's tests/ directory, FAILS on your changed code and PASSES on the unchanged code (check both. Do NOT use `git stash` - the stash is shared by all worktrees of the repository and other agents work in parallel; instead save your change with `git diff > /tmp/mut-{wt}/my.patch`, undo it with `git apply -R /tmp/mut-{wt}/my.patch`, run the demonstration, then restore it with `git apply /tmp/mut-{wt}/my.patch` and delete the patch file). It must only use public APIs of the crates (cargo features of the crate may be enabled; say which). Remove the copy from tests/ afterwards, so the worktree contains only your source change plus the demo directory.
  - finally reply with: (a) which file/function you changed and the idea, (b) exactly what is needed for the violation to manifest, (c) which crate's tests/ directory the demo belongs in and the cargo command (with features) to run it, (d) the confirmation outputs (suite passes with change; demo fails with change, passes without).
 Delete /tmp/mut-{wt}/target when you are done to save disk space."""
 os.makedirs("/tmp/agentprompts", exist_ok=True)
